@@ -47,10 +47,32 @@ var ops = []string{"=", "!=", "<", ">", "<=", ">=", "contains", "CONTAINS", "lik
 var badOps = []string{"<>", "==", "in", "+"}
 
 // plain values (also used for the sample tag sets / events)
-var plainVals = []string{"v", "1", "b", "x", "app1", "10", "abc", "é", "a b", "", "x*", "*", "5"}
+var plainVals = []string{"v", "1", "b", "x", "app1", "10", "abc", "é", "a b", "", "x*", "*", "5", "a  b"}
+
+// delicate values (source text of a double-quoted literal): runs of blanks, leading / trailing blanks, a trailing
+// backslash, tabs, quotes — what a text-level rewrite of a printed condition (or a lexer pattern change) disturbs.
+// The sample tag sets and events of main.go contain the denoted values, so that truth tables tell them apart.
+var delicateLits = []string{`"a  b"`, `"x   y"`, `" lead"`, `"trail  "`, `"C:\\logs\\"`, `"t\tb"`, `"q\"t"`, `"a b"`, `"  "`, `"a\\"`}
+
+// directedCond: operand and operator from small pools, value from the delicate pool (boundary-directed stream)
+func directedCond(r *vh.Rng, where bool) string {
+	op := r.PickS([]string{"=", "=", "contains", "prefix", "suffix", "!=", "like"})
+	id := r.PickS([]string{"a", "name"})
+	if where {
+		id = r.PickS([]string{"msg", "fields:f"})
+	}
+	c := id + " " + op + " " + r.PickS(delicateLits)
+	if r.Chance(1, 3) { // followed by a second literal (a trailing backslash must not swallow it)
+		c += r.PickS([]string{" and ", " or "}) + id + " " + r.PickS([]string{"=", "contains"}) + " " + r.PickS([]string{`"x"`, `"v"`, `"a b"`})
+	}
+	if r.Chance(1, 6) {
+		c = "not (" + c + ")"
+	}
+	return c
+}
 
 // raw string bodies from the weighted alphabet (quotes, escapes, braces, non-ASCII, control bytes)
-var strAtoms = []string{"a", "b", "x", "1", " ", "}", "{", "=", ",", "\\\"", "\\\\", "\\n", "\\t", "\\x7d", "\\x00", "\\xff", "\\u00e9", "\\U0001F600",
+var strAtoms = []string{"a", "b", "x", "1", " ", "  ", "   ", "}", "{", "=", ",", "\\\"", "\\\\", "\\n", "\\t", "\\x7d", "\\x00", "\\xff", "\\u00e9", "\\U0001F600",
 	"é", "ÿ", "日", "'", "`", "*", "?", "[", "]", ":", "(", ")", "\xff", "\xc3", "\x7f", "\x01", "\\'", "\\q", "\\101", "\\400", "\\u12", "\n", "or", "AND", "%"}
 
 func strLit(r *vh.Rng) string {
@@ -143,6 +165,9 @@ func expr(r *vh.Rng, where bool, d int) string {
 	ps := []string{}
 	for i := 0; i < n; i++ {
 		x := cond(r, where)
+		if r.Chance(1, 10) {
+			x = directedCond(r, where)
+		}
 		if d > 0 && r.Chance(1, 3) {
 			x = "(" + expr(r, where, d-1) + ")"
 			if r.Chance(1, 4) {
@@ -161,7 +186,7 @@ func expr(r *vh.Rng, where bool, d int) string {
 }
 
 var tagKeys = []string{"a", "bb", "c.d", "name", "ip", "", " k", "{k", "k\"", "x y"}
-var tagVals = []string{"v", "1", "app1", `"a b"`, `"x,y"`, `"q\"t"`, `" s "`, `""`, "`raw`", "é", `"unclosed`, `"}"`, `"x}"`, `"x}y"`, `"a=b"`, `"\n"`, `"\xff"`, "a b", "`", `"\\"`, `"{"`, "x*", `"ÿ"`, "v}"}
+var tagVals = []string{"v", "1", "app1", `"a  b"`, `"a b"`, `"x,y"`, `"q\"t"`, `" s "`, `""`, "`raw`", "é", `"unclosed`, `"}"`, `"x}"`, `"x}y"`, `"a=b"`, `"\n"`, `"\xff"`, "a b", "`", `"\\"`, `"{"`, "x*", `"ÿ"`, "v}"}
 
 func tagsLit(r *vh.Rng) string {
 	n := 1 + r.Intn(3)
